@@ -67,6 +67,8 @@ def shrink(world, res):
         _shrink_c14(best, attempt, budget)
     elif t0["prop"] == "C15":
         _shrink_c15(best, attempt, budget)
+    elif "incarnations" in t0:
+        _shrink_c20(best, attempt, budget)
     else:
         _shrink_ops(best, attempt, budget)
     final = world.execute(best["trace"], keep_events=True)
@@ -182,3 +184,33 @@ def _shrink_c15(best, attempt, budget):
             return variant(tasks=ts)
         _shrink_ddl(lambda i=i: best["trace"]["tasks"][i]["ddl"], put, attempt, budget)
     _ddmin_list(best["trace"].get("schedule", []), lambda sc: attempt(variant(schedule=sc)), budget)
+
+
+def _shrink_c20(best, attempt, budget):
+    def variant(incs):
+        t = copy.deepcopy(best["trace"])
+        t["incarnations"] = incs
+        return t
+    vi = best["res"]["violations"][0].get("incarnation")
+    if vi is not None and vi + 1 < len(best["trace"]["incarnations"]):
+        attempt(variant(best["trace"]["incarnations"][:vi + 1]))
+    _ddmin_list(best["trace"]["incarnations"], lambda incs: len(incs) >= 1 and attempt(variant(incs)), budget)
+    for i in range(len(best["trace"]["incarnations"])):
+        incs = copy.deepcopy(best["trace"]["incarnations"])
+        if incs[i].get("write_fault"):
+            incs[i]["write_fault"] = False
+            attempt(variant(incs))
+        incs = copy.deepcopy(best["trace"]["incarnations"])
+        if incs[i].get("hashseed"):
+            incs[i]["hashseed"] = 0
+            attempt(variant(incs))
+        v = best["res"]["violations"][0]
+        if v.get("item") is not None and v.get("incarnation") == i:
+            incs = copy.deepcopy(best["trace"]["incarnations"])
+            incs[i]["items"] = [v["item"]]
+            attempt(variant(incs))
+        else:
+            incs = copy.deepcopy(best["trace"]["incarnations"])
+            if len(incs[i]["items"]) > 1:
+                incs[i]["items"] = incs[i]["items"][:1]
+                attempt(variant(incs))
